@@ -2,7 +2,7 @@
    in the cell-major form used by the refinement models. *)
 From Coq Require Import List Arith Bool ZArith QArith.
 Import ListNotations.
-Require Import Base.C11_Unique Model.C11_Topo Model.C12_Refine.
+Require Import Base.Corr Base.C11_Unique Model.C11_Topo Model.C12_Refine Model.C13_Adaptive.
 Local Open Scope nat_scope.
 
 (* facets = build_entities(t, refdom.facets)[0], t2f[k][a] = mapping[a][k] *)
@@ -45,3 +45,98 @@ Definition adapt_okb (blocks : list (list bool * list (list nref))) : bool :=
      forallb (fun tpl => nodup_nref tpl && (length tpl =? 3) &&
                 forallb (fun r => match r with NV i => i <? 3 | NF j => (j <? 3) && nth j (fst b) false | _ => false end) tpl)
              (snd b)) blocks.
+
+(* ------------------------------------------------------------------ 3-D: what the children leave on a face *)
+(* the edge slot of the reference cell that joins local vertices i and j (length re = not found) *)
+Fixpoint find_slot (re : list (list nat)) (i j b : nat) : nat :=
+  match re with
+  | [] => b
+  | s :: r => if nats_eqb s [i; j] || nats_eqb s [j; i] then b else find_slot r i j (S b)
+  end.
+Definition eslot (re : list (list nat)) (i j : nat) : nat := find_slot re i j 0.
+
+(* position of a tuple in an entity array *)
+Fixpoint lidx (x : list nat) (l : list (list nat)) : nat :=
+  match l with [] => 0 | y :: r => if nats_eqb x y then 0 else S (lidx x r) end.
+
+(* the four triangles into which a triangular face with vertices x, y, z and edge nodes mxy, mxz, myz is cut (sorted tuples) *)
+Definition tri_pieces (x y z mxy mxz myz : nat) : list (list nat) :=
+  [isort [x; mxy; mxz]; isort [y; mxy; myz]; isort [z; mxz; myz]; isort [mxy; mxz; myz]].
+
+(* ... as seen from a cell: local face a, edge nodes numbered offE + t2e[slot] *)
+Definition resolved_face_pieces (rf re : list (list nat)) (oE : nat) (c : cctx) (a : nat) : list (list nat) :=
+  let lf := nth a rf [] in
+  let i0 := nth 0 lf 0 in let i1 := nth 1 lf 0 in let i2 := nth 2 lf 0 in
+  let m i j := oE + nth (eslot re i j) (ce c) 0 in
+  tri_pieces (nth i0 (cv c) 0) (nth i1 (cv c) 0) (nth i2 (cv c) 0) (m i0 i1) (m i0 i2) (m i1 i2).
+
+(* ... as a function of the face alone: its vertex tuple and the mesh's edge array *)
+Definition face_trace3 (edges : list (list nat)) (oE : nat) (fv : list nat) : list (list nat) :=
+  let u := nth 0 fv 0 in let v := nth 1 fv 0 in let w := nth 2 fv 0 in
+  let m a b := oE + lidx (isort [a; b]) edges in
+  tri_pieces u v w (m u v) (m u w) (m v w).
+
+(* slot tables of a cell type with triangular faces: three different local vertices per face, each pair an edge slot *)
+Definition face_edges_okb (nn : nat) (rf re : list (list nat)) : bool :=
+  forallb (fun lf => match lf with
+                     | [i0; i1; i2] =>
+                         negb (Nat.eqb i0 i1) && negb (Nat.eqb i0 i2) && negb (Nat.eqb i1 i2) &&
+                         (i0 <? nn) && (i1 <? nn) && (i2 <? nn) &&
+                         (eslot re i0 i1 <? length re) && (eslot re i0 i2 <? length re) && (eslot re i1 i2 <? length re)
+                     | _ => false
+                     end) rf.
+
+(* template-level check (3-D analogue of trace_ok): the faces of the children are the expected four pieces of every parent
+   face (each once) plus interior faces (each twice) *)
+Definition fcode (tpl : list nref) (f : list nat) : list nat := isort (map (fun i => ncode (nth i tpl NC)) f).
+Definition child_faces (rf : list (list nat)) (tpls : list (list nref)) : list (list nat) :=
+  flat_map (fun tpl => map (fcode tpl) rf) tpls.
+Definition face_pieces_coded (rf re : list (list nat)) (a : nat) : list (list nat) :=
+  let lf := nth a rf [] in
+  let i0 := nth 0 lf 0 in let i1 := nth 1 lf 0 in let i2 := nth 2 lf 0 in
+  let m i j := ncode (NE (eslot re i j)) in
+  tri_pieces (ncode (NV i0)) (ncode (NV i1)) (ncode (NV i2)) (m i0 i1) (m i0 i2) (m i1 i2).
+Definition focc (e : list nat) (l : list (list nat)) : nat := length (filter (nats_eqb e) l).
+Definition trace3_ok (rf re : list (list nat)) (tpls : list (list nref)) : bool :=
+  let E := child_faces rf tpls in
+  let pieces := flat_map (face_pieces_coded rf re) (seq 0 (length rf)) in
+  forallb (fun e => Nat.eqb (focc e E) 1 && Nat.eqb (focc e pieces) 1) pieces
+  && forallb (fun e => (focc e pieces =? 1) || (focc e E =? 2)) E.
+
+(* ------------------------------------------------------------------ quadrilateral faces (hexahedra) *)
+(* the four quadrilaterals into which a face with vertices a, b, c, d (cyclic), edge nodes mab, mbc, mcd, mda and face node n is cut *)
+Definition quad_pieces (a b c d mab mbc mcd mda n : nat) : list (list nat) :=
+  [isort [a; mab; n; mda]; isort [b; mbc; n; mab]; isort [c; mcd; n; mbc]; isort [d; mda; n; mcd]].
+
+Definition resolved_qface_pieces (rf re : list (list nat)) (oE oF : nat) (c : cctx) (a : nat) : list (list nat) :=
+  let lf := nth a rf [] in
+  let i0 := nth 0 lf 0 in let i1 := nth 1 lf 0 in let i2 := nth 2 lf 0 in let i3 := nth 3 lf 0 in
+  let m i j := oE + nth (eslot re i j) (ce c) 0 in
+  quad_pieces (nth i0 (cv c) 0) (nth i1 (cv c) 0) (nth i2 (cv c) 0) (nth i3 (cv c) 0)
+              (m i0 i1) (m i1 i2) (m i2 i3) (m i3 i0) (oF + nth a (cf c) 0).
+
+Definition face_trace4 (edges : list (list nat)) (oE oF f : nat) (fv : list nat) : list (list nat) :=
+  let a := nth 0 fv 0 in let b := nth 1 fv 0 in let c := nth 2 fv 0 in let d := nth 3 fv 0 in
+  let m x y := oE + lidx (isort [x; y]) edges in
+  quad_pieces a b c d (m a b) (m b c) (m c d) (m d a) (oF + f).
+
+Definition qface_edges_okb (nn : nat) (rf re : list (list nat)) : bool :=
+  forallb (fun lf => match lf with
+                     | [i0; i1; i2; i3] =>
+                         nodup_nref [NV i0; NV i1; NV i2; NV i3] &&
+                         (i0 <? nn) && (i1 <? nn) && (i2 <? nn) && (i3 <? nn) &&
+                         (eslot re i0 i1 <? length re) && (eslot re i1 i2 <? length re) &&
+                         (eslot re i2 i3 <? length re) && (eslot re i3 i0 <? length re)
+                     | _ => false
+                     end) rf.
+
+Definition qface_pieces_coded (rf re : list (list nat)) (a : nat) : list (list nat) :=
+  let lf := nth a rf [] in
+  let i0 := nth 0 lf 0 in let i1 := nth 1 lf 0 in let i2 := nth 2 lf 0 in let i3 := nth 3 lf 0 in
+  let m i j := ncode (NE (eslot re i j)) in
+  quad_pieces (ncode (NV i0)) (ncode (NV i1)) (ncode (NV i2)) (ncode (NV i3)) (m i0 i1) (m i1 i2) (m i2 i3) (m i3 i0) (ncode (NF a)).
+Definition trace4_ok (rf re : list (list nat)) (tpls : list (list nref)) : bool :=
+  let E := child_faces rf tpls in
+  let pieces := flat_map (qface_pieces_coded rf re) (seq 0 (length rf)) in
+  forallb (fun e => Nat.eqb (focc e E) 1 && Nat.eqb (focc e pieces) 1) pieces
+  && forallb (fun e => (focc e pieces =? 1) || (focc e E =? 2)) E.
